@@ -83,30 +83,55 @@ def _search(ctx, deep=False):
     hv, hev, hsum = C05.search_histories(ctx, rng, deep, zero=True)
     viol += hv
     ev += hev
-    # duplicated conditioning points with the pseudo inverse act as one point carrying the mean value
-    for t in range(ctx.scale(15, 100)):
+    # coincident conditioning points with the pseudo inverse act as one point carrying the mean value — any number of
+    # locations, ANY multiplicities (theorem C06.duplicates_pinv_simple).  The hypothesis of that theorem, `IsMPInv K M`,
+    # is replayed on what scipy actually returns: the four Penrose equations on the captured (K, M) within 1e-9.
+    from gstools.krige.base import P_INV
+    for t in range(ctx.scale(30, 200)):
         dim = int(rng.randint(1, 4))
-        n = int(rng.randint(2, 6))
-        cp = rng.uniform(0, 8, size=(dim, n))
-        cv = rng.randn(n)
+        m = int(rng.randint(1, 6))
+        cp = rng.uniform(0, 8, size=(dim, m))
         model = kc.make_model(rng, dim, nugget=0.0, names=["Gaussian", "Exponential", "Spherical"])
-        dup = int(rng.randint(0, n))
-        cp2 = np.hstack([cp, cp[:, [dup]]])
-        extra = float(rng.randn())
-        cv2 = np.append(cv, extra)
-        cvm = cv.copy()
-        cvm[dup] = 0.5 * (cv[dup] + extra)
+        mult = rng.randint(1, 4, size=m)
+        mult[int(rng.randint(m))] += 1            # at least one genuinely duplicated location
+        pi = np.repeat(np.arange(m), mult)
+        rng.shuffle(pi)                            # coincident points need not be adjacent
+        cp2 = cp[:, pi]
+        cv2 = rng.randn(len(pi))
+        cvm = np.array([cv2[pi == a].mean() for a in range(m)])
         tp = rng.uniform(0, 8, size=(dim, 5))
+        ptype = str(rng.choice(["pinv", "pinvh"]))
+        cap = []
+
+        def pinv_cap(mat, _f=P_INV[ptype]):
+            inv = _f(mat)
+            cap.append((np.array(mat, copy=True), np.array(inv, copy=True)))
+            return inv
         with warnings.catch_warnings():
             warnings.simplefilter("ignore")
-            a = gs.krige.Simple(model, cp2, cv2, pseudo_inv=True)(tp)
+            a = gs.krige.Simple(model, cp2, cv2, pseudo_inv=True, pseudo_inv_type=pinv_cap)(tp)
+            a0 = gs.krige.Simple(model, cp2, cv2, pseudo_inv=True, pseudo_inv_type=ptype)(tp)
             b = gs.krige.Simple(model, cp, cvm, pseudo_inv=True)(tp)
+            kmerged = model.covariance(np.sqrt(((model.isometrize(cp)[:, :, None] - model.isometrize(cp)[:, None, :]) ** 2).sum(0)))
+        if np.linalg.cond(kmerged) > 1e6:         # ill-conditioned merged system: discarded, never compared loosely
+            continue
         ev += 1
-        if not (np.allclose(a[0], b[0], atol=1e-6 * (1 + np.abs(cv).max())) and np.allclose(a[1], b[1], atol=1e-6)):
+        case = dict(cond_pos=cp2.tolist(), cond_val=cv2.tolist(), pos=tp.tolist(), model=repr(model), multiplicities=mult.tolist(),
+                    pseudo_inv_type=ptype)
+        K, M = cap[-1]
+        nK, nM = np.abs(K).max(), np.abs(M).max()
+        pen = [np.abs(K @ M @ K - K).max() / nK, np.abs(M @ K @ M - M).max() / nM,
+               np.abs((K @ M).T - K @ M).max(), np.abs((M @ K).T - M @ K).max()]
+        if not max(pen) <= 1e-9:
+            viol.append({"key": "krige:pinv-penrose:" + ptype, "what": "scipy's pseudo-inverse of a duplicated simple-kriging matrix violates the "
+                         "Penrose equations (hypothesis IsMPInv of C06.duplicates_pinv_simple) beyond 1e-9", "case": case, "got": pen})
+        if not (np.array_equal(a[0], a0[0]) and np.array_equal(a[1], a0[1])):
+            viol.append({"key": "krige:pinv-capture", "what": "callable pseudo_inv_type changes the result", "case": case})
+        if not (np.allclose(a[0], b[0], atol=1e-6 * (1 + np.abs(cv2).max())) and np.allclose(a[1], b[1], atol=1e-6)):
             viol.append({"key": "krige:duplicates-pinv", "what": "coincident conditioning points do not act as one point with the mean value",
-                         "case": dict(cond_pos=cp2.tolist(), cond_val=cv2.tolist(), pos=tp.tolist(), model=repr(model)),
-                         "got": [a[0].tolist(), a[1].tolist()], "want": [b[0].tolist(), b[1].tolist()]})
+                         "case": case, "got": [a[0].tolist(), a[1].tolist()], "want": [b[0].tolist(), b[1].tolist()]})
     return {"evaluations": ev, "violations": viol[:8],
             "summary": "real Krige variants (+ generic class): data reproduced through mean/normalizer/trend (6 non-identity normalizers x constant/callable "
                        f"mean x trend: {len(tags)} combinations) and zero variance at conditioning points (exact mode / zero error / no nugget), raw field = "
-                       "independently prepared data, 0 <= var (<= sill for simple), duplicated points with pinv; " + hsum}
+                       "independently prepared data, 0 <= var (<= sill for simple), coincident points (1-5 locations, multiplicities 1-4) with pinv/pinvh = merged points "
+                       "with mean values + Penrose equations of the captured pseudo-inverse; " + hsum}
